@@ -98,7 +98,7 @@ func (s *Scope) Invoke(function interface{}, opts ...InvokeOption) (err error) {
 	}
 	if ftype.Kind() != reflect.Func {
 		return newErrInvalidInput(
-			fmt.Sprintf("can't invoke non-function %v (type %v)", function, ftype), nil)
+			fmt.Sprintf("can't invoke non-function %v (type %v)", describeValue(function), ftype), nil)
 	}
 	if reflect.ValueOf(function).IsNil() {
 		return newErrInvalidInput(
